@@ -970,6 +970,11 @@ func (ro *RedisOutput) sendCmdsBatch(replayWait usync.WaitCloser, conn client.Re
 	}
 
 	sendFuncOnce := func(shouldInTransaction, shouldUpdateCP bool, lastOffset int64) error {
+		if lastOffset < 0 {
+			// nothing has been consumed in this run yet : there is no position to store,
+			// never overwrite the stored checkpoint with the "-1" placeholder
+			shouldUpdateCP = false
+		}
 		if len(cmdQueue) == 0 && shouldInTransaction && !shouldUpdateCP {
 			return nil
 		}
